@@ -149,13 +149,49 @@ fn cond_case(out: &mut Out, rng: &mut SplitMix64, skipped: &mut usize, zero_shot
     let (g, arity) = if arity > nq || (g == "CCX" && !vector) { ("X", 1) } else { (g, arity) };
     let bits = pick_distinct(rng, arity, nq);
     ops.push(Op::Cond(control.clone(), target, g, bits.clone()));
+    // optionally: something that rewrites selected bits WITHOUT a collapsing measurement (peeks), or with one, and then
+    // a second conditional gate with the same (or a related) condition - the decision must be taken from the register
+    // contents at that point of the run, not from anything remembered from the first one
+    let mut second: Option<(usize, Vec<usize>, u64, &'static str, Vec<usize>)> = None;
+    if !zero_shots && rng.below(2) == 0
+    {
+        for _ in 0..(1 + rng.below(3))
+        {
+            let q = rng.below(nq as u64) as usize;
+            let c = if !control.is_empty() && rng.below(4) != 0 { *rng.pick(&control) } else { rng.below(nc as u64) as usize };
+            match rng.below(6)
+            {
+                0 | 1 => ops.push(Op::Peek(q, c)),
+                2 => { ops.push(Op::Gate("X", vec![q])); ops.push(Op::Peek(q, c)); },
+                3 => ops.push(Op::PeekAll(pick_distinct(rng, nq, nc))),
+                4 => ops.push(Op::Measure(q, c)),
+                _ => ops.push(Op::Barrier(vec![q]))
+            }
+        }
+        let (c2, t2) = match rng.below(4)
+        {
+            0 | 1 => (control.clone(), target),
+            2 => (control.clone(), rng.below(1 << k.min(4))),
+            _ => { let k2 = 1 + rng.below(3.min(nc) as u64) as usize; let c2 = pick_distinct(rng, k2, nc); (c2, rng.below(1 << k2)) }
+        };
+        let (g2, a2) = match rng.below(4) { 0 | 1 => ("X", 1), 2 => (g, arity), _ => ("CX", 2) };
+        let (g2, a2) = if a2 > nq { ("X", 1) } else { (g2, a2) };
+        let b2 = pick_distinct(rng, a2, nq);
+        second = Some((ops.len(), c2.clone(), t2, g2, b2.clone()));
+        ops.push(Op::Cond(c2, t2, g2, b2));
+    }
     let post = pick_distinct(rng, nq, nc);
     ops.push(Op::MeasureAll(post.clone()));
 
     match run_circuit(vector, nq, nc, shots, &ops, seed)
     {
         Outcome::Done { trace, .. } => {
-            let (before, after, last) = (&trace[p - 1], &trace[p], &trace[p + 1]);
+            // one request per conditional gate: (position in ops, control, target, gate, bits, is the final measure_all next?)
+            let mut conds = vec![(p, control.clone(), target, g, bits.clone(), second.is_none())];
+            if let Some((p2, c2, t2, g2, b2)) = second.clone() { conds.push((p2, c2, t2, g2, b2, true)); }
+            for (pos, control, target, g, bits, has_final) in conds
+            {
+            let (before, after, last) = (&trace[pos - 1], &trace[pos], &trace[pos + 1]);
             let (dec_b, dec_a) = (decode(nq, &before.snapshot), decode(nq, &after.snapshot));
             if let (Some((cb, sb)), Some((ca, sa))) = (dec_b, dec_a)
             {
@@ -167,12 +203,14 @@ fn cond_case(out: &mut Out, rng: &mut SplitMix64, skipped: &mut usize, zero_shot
                 let ids_a: Vec<usize> = ra.iter().map(|(_, t)| id(t)).collect();
                 let req = format!("condrun {} {} | counts {} | states {} | reg {} | cond {} ; {} ; {} {} | post {} | ids {} ; {}",
                     if vector { "v" } else { "s" }, nq, js(&cb), sb.iter().map(|q| qs_text(q)).collect::<Vec<_>>().join(" "),
-                    ju(&before.cstate), js(&control), target, g, js(&bits), js(&post), js(&ids_b), js(&ids_a));
+                    ju(&before.cstate), js(&control), target, g, js(&bits), if has_final { js(&post) } else { "-".to_string() }, js(&ids_b), js(&ids_a));
                 let ans = format!("ok counts {} | states {} | reg {} | final {}", js(&ca),
-                    sa.iter().map(|q| qs_text(q)).collect::<Vec<_>>().join(" "), ju(&after.cstate), ju(&last.cstate));
+                    sa.iter().map(|q| qs_text(q)).collect::<Vec<_>>().join(" "), ju(&after.cstate),
+                    if has_final { ju(&last.cstate) } else { "-".to_string() });
                 out.case(&req, &ans);
             }
             else { *skipped += 1; }
+            }
         },
         Outcome::Panic if zero_shots => {
             // zero shots: the situation before the conditional gate is the fresh state
